@@ -115,6 +115,10 @@ func (header *Header) Validate(ctx context.Context, opts ...ValidationOption) er
 					if err := v.Validate(ctx); err != nil {
 						return fmt.Errorf("%s: %w", k, err)
 					}
+					if v.Value.Value == nil && v.Value.ExternalValue != "" {
+						// the value lives elsewhere: there is nothing to compare with the schema
+						continue
+					}
 					if err := validateExampleValue(ctx, v.Value.Value, schema.Value); err != nil {
 						return fmt.Errorf("%s: %w", k, err)
 					}
